@@ -122,6 +122,7 @@ class Gen:
         nl = labels if labels is not None else rng.randint(1, 4)
         self.labels = ["main"] + ["lab%d" % i for i in range(1, nl + 1)]
         self.nparams = {l: rng.choice([0, 0, 1, 2, 3]) for l in self.labels}
+        self.cur = 0          # index of the label whose body is being generated
         self.catch_id = 0
         self.goto_id = 0
         self.hist = {}
@@ -218,7 +219,10 @@ class Gen:
     def call(self, d, expr=False):
         """thread / waitthread call of a later label (mostly), with some parameters"""
         r = self.r
-        lab = r.choice(self.labels[1:] or ["main"])
+        later = self.labels[self.cur + 1:]
+        lab = r.choice(later) if later and r.random() > 0.015 else r.choice(self.labels)
+        if not later and r.random() < 0.7:
+            lab = "nolabel"                     # the last label calls nobody (or fails to)
         if r.random() < self.errors:
             lab = "nolabel"
         n = self.nparams.get(lab, 1)
@@ -287,12 +291,24 @@ class Gen:
             "local.q = -(\"x\")",
             "local.q = ~(1.5)",
             "local.q = vector_length \"nonsense\"",
-            "local.q = local.q.size.size",
             "level.self = 1",
             "level.x.y.z = 1",
             "local.q = (local.nil_1 thread lab1)",
             "local.nil_2 waitthread main",
             "local.q++",
+            "local.q = $vp.vp_wonly",                             # host class of harness/bytecode.cpp: write-only variable read
+            "local.q = local.vp.vp_failget",                      # getter that raises
+            "$vp.vp_failset = 1",                                 # setter that raises
+            "local.vp.vp_ronly = 2",                              # read-only variable written
+            "self.vp_ronly = 3",
+            "self.vp_failset = 4",
+            "local.q = self.vp_failget + 1",
+            "$vp vp_fail 1 2 3",
+            "self vp_fail",
+            "local.q = $vp vp_failret 1",
+            "local.q = (local.vp vp_failret 1 2 3 4 5 6 7) + 1",
+            "local.q = $vp.vp_wonly[1]",
+            "$vp.vp_failget[2] = 1",
             "local.nil_3.w++",
             "local.nil_3.w += 2",
         ]))
@@ -356,7 +372,7 @@ class Gen:
             self.hit("s:while")
             v = "local.w%d" % d
             return Node("%s = 0\nwhile (%s < %d && %s) {" % (v, v, r.randint(1, 3), self.prim(1) if r.random() < 0.3 else "1"),
-                        self.block(d - 1, n, loopctx) + [Node("%s++" % v)], "}", kind="loop")
+                        [Node("%s++" % v)] + self.block(d - 1, n, loopctx), "}", kind="loop")
         if k < 0.77:
             self.hit("s:for")
             v = "local.f%d" % d
@@ -365,7 +381,7 @@ class Gen:
         if k < 0.82:
             self.hit("s:do")
             v = "local.d%d" % d
-            return Node("%s = 0\ndo {" % v, self.block(d - 1, n, loopctx) + [Node("%s++" % v)], "} while (%s < %d)" % (v, r.randint(1, 3)), kind="loop")
+            return Node("%s = 0\ndo {" % v, [Node("%s++" % v)] + self.block(d - 1, n, loopctx), "} while (%s < %d)" % (v, r.randint(1, 3)), kind="loop")
         if k < 0.86 and ctx.get("loop"):
             self.hit("s:break/continue")
             return Node("if %s {" % self.prim(1), [Node(r.choice(["break", "continue"]))], "}")
@@ -436,6 +452,7 @@ class Gen:
             nodes += self.block(2, r.randint(1, 2), {})
             nodes.append(Node("end"))
         for li, lab in enumerate(self.labels):
+            self.cur = li
             params = " ".join("local.p%d" % i for i in range(self.nparams[lab]))
             head = ("%s %s:" % (lab, params)).replace(" :", ":")
             if r.random() < 0.1 and li:
@@ -443,6 +460,8 @@ class Gen:
             body = []
             if li == 0 and r.random() < 0.5:
                 body.append(Node('local.e = spawn SimpleEntity "targetname" "ent"'))
+            if li == 0 and r.random() < 0.6:
+                body.append(Node('local.vp = spawn VProbe "targetname" "vp"'))
             depth = r.choice([1, 2, 3, self.max_depth]) if li == 0 else r.choice([1, 2, 3])
             body += self.block(depth, self.size if li == 0 else max(2, self.size // 2), {})
             body.append(Node(r.choice(["end", "end", "end %s" % self.prim(2), ""])) if r.random() < 0.9 else Node("wait 0"))
